@@ -9,7 +9,7 @@
                             W:<mac>:<ip>  the first live loop with that destination passes its select
                             R:<counter-before>:<T|F host known>:<src ip>:<eth src>:<msg>
                             D:<ms>        real-time delay (ignored by the model)               *)
-From PV Require Import Base.Text Model.Icmp6SpoofRA Model.Icmp6Spoof Spec.RFC4861.
+From PV Require Import Base.Text Model.Icmp6SpoofRA Model.Icmp6Spoof Spec.RFC4861 Model.Icmp6SpoofKnown.
 Open Scope string_scope.
 Open Scope N_scope.
 
@@ -41,7 +41,7 @@ Definition show_ri_m (r : route_info) : string :=
   else dec_of_N (ri_len r) ++ "/" ++ dec_of_N (ri_prf r) ++ "/" ++ dec_of_N (ri_life r)
        ++ (if ri_set r then "" else "/unset").
 Definition show_rip_m (r : route_info) : string :=
-  if ri_set r then hx (pad16 (ri_prefix r)) else "-".
+  if ri_set r then hx (ri_prefix r) else "-".
 
 Definition proj_model (proj : string) (r : router) : string :=
   let o := r_opts r in
@@ -94,40 +94,11 @@ Definition proj_spec (proj : string) (mac0 : bytes) (d : ra_info) : string :=
   else if String.eqb proj "rip" then route_prefix (lastd (routes os) (OOther 0))
   else "badproj".
 
-(* ---------------- known defect classes (decidable, on the RA bytes) ---------------- *)
-Definition tlvs_of (p : bytes) : list (N * N * bytes) :=
-  match split_tlv (List.length p) (skipn 16 p) with Some l => l | None => [] end.
-
-(* mtu-offset: the last MTU option reads differently at b[2:6] than at b[4:8] *)
-Definition known_mtu_offset (p : bytes) : bool :=
-  match lastd (filter (fun x => match x with (t, _, _) => t =? 5 end) (tlvs_of p)) (0, 0, []) with
-  | (_, _, [r0; r1; a; b; c; d]) => negb (w32 r0 r1 a b =? w32 a b c d)
-  | _ => false
-  end.
-(* router-mtu-unset: an MTU option with a non-zero MTU is present *)
-Definition known_rmtu_unset (d : ra_info) : bool := negb (lastd (mtus (ra_opts d)) 0 =? 0).
-Definition known_rdnss_multiple (d : ra_info) : bool := (2 <=? List.length (rdnsses (ra_opts d)))%nat.
-Definition known_dnssl_multiple (d : ra_info) : bool := (2 <=? List.length (dnssls (ra_opts d)))%nat.
-Definition known_dnssl_long (p : bytes) : bool :=
-  existsb (fun x => match x with (t, l, _) => (t =? 31) && (32 <=? l) end) (tlvs_of p).
-Definition known_ri_multiple (d : ra_info) : bool := (2 <=? List.length (routes (ra_opts d)))%nat.
-(* ri-prefix-bits: the last route option has a prefix length that is not a multiple of 8
-   and the bits of the partial octet are not all zero *)
-Definition known_ri_prefix_bits (p : bytes) : bool :=
-  match lastd (filter (fun x => match x with (t, _, _) => t =? 24 end) (tlvs_of p)) (0, 0, []) with
-  | (_, _, pl :: _ :: _ :: _ :: _ :: _ :: pfx) =>
-      negb (pl mod 8 =? 0) && negb (keep_bits (nth (N.to_nat (pl / 8)) pfx 0) (pl mod 8) =? 0)
-  | _ => false
-  end.
-
+(* ---------------- known defect classes: Model/Icmp6SpoofKnown.v ---------------- *)
 Definition key_of (proj : string) (p : bytes) (d : ra_info) : string :=
-  if String.eqb proj "omtu" then (if known_mtu_offset p then "mtu-offset" else "-")
-  else if String.eqb proj "rmtu" then (if known_rmtu_unset d then "router-mtu-unset" else "-")
-  else if String.eqb proj "rdnss" then (if known_rdnss_multiple d then "rdnss-multiple" else "-")
-  else if String.eqb proj "dnssl" then
-    (if known_dnssl_long p then "dnssl-long" else if known_dnssl_multiple d then "dnssl-multiple" else "-")
+  if String.eqb proj "rdnss" then (if known_rdnss_multiple d then "rdnss-multiple" else "-")
+  else if String.eqb proj "dnssl" then (if known_dnssl_multiple d then "dnssl-multiple" else "-")
   else if String.eqb proj "ri" then (if known_ri_multiple d then "ri-multiple" else "-")
-  else if String.eqb proj "rip" then (if known_ri_prefix_bits p then "ri-prefix-bits" else "-")
   else "-".
 
 (* ---------------- kind ra ---------------- *)
@@ -202,7 +173,7 @@ Definition show_table (st : state) (src : bytes) : string :=
   ++ (match rt_find (routers st) src with Some r => show_router_all r | None => "none" end).
 
 Definition set_repeat (st : state) (z : Z) : state :=
-  mkSt (hunt st) (loops st) (routers st) (defrouter st) z (closed st) (chan_closed st).
+  mkSt (hunt st) (loops st) (routers st) (defrouter st) z (closed st).
 
 (* one token: new state, rendered output (None for D tokens / bad tokens), saw the ra-after-close panic *)
 Definition do_tok (st : state) (tok : string) : option (state * option string * bool) :=
@@ -231,8 +202,7 @@ Definition do_tok (st : state) (tok : string) : option (state * option string * 
       match Z_of_dec c, bool_of_tok hk, bytes_of_tok s, bytes_of_tok e, bytes_of_tok msg with
       | Some z, Some k, Some src, Some eth, Some p =>
           let '(st', o) := step std_cfg (set_repeat st z) (RxRA src eth p k) in
-          let kpanic := match o with ORA Panic => closed st && negb (List.length (hunt st) =? 0)%nat | _ => false end in
-          Some (st', Some (show_out o ++ " " ++ show_table st' src), kpanic)
+          Some (st', Some (show_out o ++ " " ++ show_table st' src), false)
       | _, _, _, _, _ => None
       end
   | ["D"; _] => Some (st, None, false)
@@ -258,7 +228,7 @@ Definition dispatch (kind : string) (args : list string) : string :=
     end
   else if String.eqb kind "h" then
     match do_hist (init (-1)) args [] false with
-    | Some (outs, k) => out3 (join " | " outs) "-" (if k then "ra-after-close" else "-")
+    | Some (outs, k) => out3 (join " | " outs) "-" "-"
     | None => BADARGS
     end
   else BADARGS.
